@@ -27,7 +27,7 @@ ASSUMPTIONS = [
     'vf/shims/portion.py (integer interval sets, self-tested) stands in for the portion package',
 ]
 DECIDING = ['bp.app.fragment:Fragment._reassemble', 'bp.agent:Agent.recv_bundle']
-REQUIRED_OBS = ['arrivals', 'deliveries_due', 'deliveries_seen', 'duplicates_injected', 'interleaved_histories', 'overlapping_sets', 'signed_histories', 'burst_histories', 'whole_adu_histories', 'damaged_copies_injected', 'replayed_histories', 'damaged_primary_copies_injected']
+REQUIRED_OBS = ['stack_reassemblies_checked', 'arrivals', 'deliveries_due', 'deliveries_seen', 'duplicates_injected', 'interleaved_histories', 'overlapping_sets', 'signed_histories', 'burst_histories', 'whole_adu_histories', 'damaged_copies_injected', 'replayed_histories', 'damaged_primary_copies_injected']
 
 NODE = 'dtn://me/'
 DEST = 'dtn://me/app'
@@ -112,6 +112,8 @@ def cases(tier, seed):
         out.append(dict(id='refrag-%d' % rep, kind='refrag', seed=seed * 541 + rep, count=10))
     for rep in range(12 if thorough else 3):
         out.append(dict(id='signed-%d' % rep, kind='signed', seed=seed * 587 + rep, count=6))
+    from vf import stackcases  # pylint: disable=import-outside-toplevel
+    stackcases.add_cases(out, tier, seed)
     return out
 
 
@@ -263,6 +265,9 @@ def _make_arrivals(rng, keys, split_kind, total_choices=(12, 30, 64, 300)):
 
 
 def run_case(case):
+    if case.get('kind') == 'stack':
+        from vf import stackcases  # pylint: disable=import-outside-toplevel
+        return stackcases.run_block(PROPERTY_ID, case)
     obs = dict(arrivals=0, deliveries_due=0, deliveries_seen=0, duplicates_injected=0, interleaved_histories=0, overlapping_sets=0,
                real_fragmenter_sets=0)
     rng = random.Random(case['seed'])
